@@ -44,6 +44,10 @@ func (f *Progn) Call(s *slip.Scope, args slip.List, depth int) (result slip.Obje
 	d2 := depth + 1
 	for i := range args {
 		result = slip.EvalArg(s, args, i, d2)
+		switch result.(type) {
+		case *slip.ReturnResult, *GoTo:
+			return result
+		}
 	}
 	return
 }
